@@ -5,8 +5,9 @@ import LexVerif.Proof.ExtRound
 `binary_exact`: whenever the model's `binary` answers with a **valid** extended float, its bit pattern is
 `roundNE (mantissa · base^exponent)` — for every mantissa `< 2^64`, every exponent in `±2^28` (the range
 `parse_number` saturates to), `lossy` and `many_digits` arbitrary, denormals, the half-way/even logic,
-overflow to infinity and underflow to zero included.  One exclusion, mirroring a defect of the code:
-the invalid marker `power2 + INVALID_FP` is only negative while `power2 < 32768` (`MarkerOk`).
+overflow to infinity and underflow to zero included.  (Until /repo commit 6cdda4d this needed the exclusion
+`power2 < 32768`: the invalid marker `power2 + INVALID_FP` was returned before any overflow test;
+`binary_marker_overflow_regression` keeps the input.)
 Mathlib-free.
 -/
 namespace LexVerif.Proof.BinaryCorrect
@@ -60,7 +61,9 @@ theorem calculatePower2_eq {F p eb} (lay : Layout F p eb) {base lg : Nat} (hb : 
     have h1 : 2 ^ (eb - 1) ≤ 2 ^ 15 := Nat.pow_le_pow_right (by decide) (by have := lay.heb16; omega)
     have := lay.hp64
     omega
-  unfold calculatePower2 satMulI64 wrapI64 wrapI litPower2Limit
+  have hlim : litPower2Limit = 1073741823 := by decide
+  unfold calculatePower2 satMulI64 wrapI64 wrapI
+  rw [hlim]
   rw [hlog]
   generalize F.C.exponentBias = B at *
   generalize 2 ^ (eb - 1) - 1 + (p - 1) = Bn at *
@@ -222,11 +225,6 @@ theorem roundNE_norm_zero {F p eb} (lay : Layout F p eb) (lg M c : Nat) (e : Int
 
 /-! ## `binary` -/
 
-/-- the marker `power2 + INVALID_FP` of an undecided result is negative (it is not when
-`power2 ≥ 32768`: a **defect of the code**, see `binary_marker_overflow_witness`) -/
-def MarkerOk (F : FTy) (base : Nat) (n : Num) : Prop :=
-  calculatePower2 F base n.exponent (clz64 n.mantissa) + invalidFp < 0
-
 /-- the increment `binary` computes is the half-to-even increment -/
 theorem binary_up (mant shift : Nat) (hs0 : 0 < shift) (hs : shift ≤ 64) (hm : mant < 2 ^ 64) :
     let isEven := if shift = 64 then true else decide (mant / 2 ^ (shift % 64) % 2 = 0)
@@ -295,16 +293,52 @@ theorem binary_eq (F : FTy) (base : Nat) (n : Num) (lossy : Bool) :
         let mantissa := shl64m n.mantissa (clz64 n.mantissa)
         let power2 := calculatePower2 F base n.exponent (clz64 n.mantissa)
         if -power2 + 1 > 64 then .ok ⟨0, 0⟩
+        else if power2 ≥ F.C.infinitePower then .ok ⟨0, F.C.infinitePower⟩
         else if binUndecided mantissa (calculateShift F power2).toNat lossy n.manyDigits then
           .ok ⟨mantissa, power2 + invalidFp⟩
         else .ok (round F ⟨mantissa, power2⟩ fun f s =>
           roundNearestTieEven f s fun _ _ _ => binRoundUp mantissa (calculateShift F power2).toNat) := rfl
 
+theorem ext_infinite {F p eb} (lay : Layout F p eb) :
+    extendedToFloat F ⟨0, F.C.infinitePower⟩ = F.fmt.infBits := by
+  have hT : 0 < 2 ^ (p - 1) := Nat.two_pow_pos _
+  have hbits : F.C.bits.toNat = p + eb := by rw [lay.bits]; rfl
+  have hTT : 2 ^ p = 2 * 2 ^ (p - 1) := by
+    rw [← Nat.pow_succ']; congr 1; have := lay.hp; omega
+  have hpow : 2 ^ (p + eb) = 2 ^ eb * (2 * 2 ^ (p - 1)) := by rw [← hTT, ← Nat.pow_add, Nat.add_comm]
+  have h1 : (2 ^ eb - 1) * 2 ^ (p - 1) < 2 ^ eb * 2 ^ (p - 1) :=
+    Nat.mul_lt_mul_of_pos_right (by have := Nat.two_pow_pos eb; omega) hT
+  have h2 : 2 ^ eb * (2 * 2 ^ (p - 1)) = 2 * (2 ^ eb * 2 ^ (p - 1)) := by ac_rfl
+  have := ext_of_fields F (p - 1) (p + eb) lay.msNat hbits 0 (2 ^ eb - 1) hT
+    (by rw [Nat.add_zero, hpow, h2]; omega) lay.hp64
+  rw [lay.infp, this, Nat.add_zero, lay.fmt]; rfl
+
+/-- **overflow cut** of `binary` (/repo commit 6cdda4d): `power2 ≥ INFINITE_POWER` ⇒ the value rounds to `+∞` -/
+theorem roundNE_norm_inf {F p eb} (lay : Layout F p eb) (lg M c : Nat) (e : Int)
+    (hm1 : 2 ^ 63 ≤ M * 2 ^ c) (hm2 : M * 2 ^ c < 2 ^ 64) (hc : c ≤ 63)
+    (power2 : Int) (hpw : power2 = (lg : Int) * e + F.C.exponentBias - c)
+    (hinf : power2 ≥ F.C.infinitePower) :
+    roundNE F.fmt (powFrac (2 ^ lg) e M).1 (powFrac (2 ^ lg) e M).2 = F.fmt.infBits := by
+  have hp := lay.hp; have hp64 := lay.hp64; have heb := lay.heb
+  rw [lay.infp] at hinf
+  have hMpos : 0 < 2 ^ eb - 1 := by
+    have : 2 ^ 2 ≤ 2 ^ eb := Nat.pow_le_pow_right (by decide) heb
+    omega
+  rw [roundNE_norm lay lg M c e hm1 hm2 hc power2 hpw (by omega)]
+  unfold encode
+  have hinfB : F.fmt.infBits = (2 ^ eb - 1) * 2 ^ (p - 1) := by rw [lay.fmt]; rfl
+  have hfp : F.fmt.p = p := by rw [lay.fmt]
+  rw [hinfB, hfp]
+  have hk : 2 ^ eb - 1 ≤ (power2 + 64 - (p : Int) - 1).toNat := by omega
+  have : (2 ^ eb - 1) * 2 ^ (p - 1) ≤ (power2 + 64 - (p : Int) - 1).toNat * 2 ^ (p - 1) :=
+    Nat.mul_le_mul_right _ hk
+  rw [if_pos (by omega)]
+
 /-- **`binary` is exact.** A valid answer of the model's `binary` is `roundNE (mantissa · base^exponent)`. -/
 theorem binary_exact {F p eb} (lay : Layout F p eb) {base : Nat}
     (hb : base = 2 ∨ base = 4 ∨ base = 8 ∨ base = 16 ∨ base = 32) (n : Num) (lossy : Bool)
     (hm : n.mantissa < 2 ^ 64) (he1 : -(2 ^ 27 : Int) ≤ n.exponent) (he2 : n.exponent ≤ (2 ^ 27 : Int))
-    (hmk : MarkerOk F base n) {fp : ExtendedFloat80}
+    {fp : ExtendedFloat80}
     (h : binary F base n lossy = .ok fp) (hv : 0 ≤ fp.exp) :
     extendedToFloat F fp =
       roundNE F.fmt (powFrac base n.exponent n.mantissa).1 (powFrac base n.exponent n.mantissa).2 := by
@@ -318,7 +352,6 @@ theorem binary_exact {F p eb} (lay : Layout F p eb) {base : Nat}
   · rw [if_neg h0] at h
     obtain ⟨hc, hm1, hm2, hshl⟩ := clz_norm h0 hm
     have hpw := calculatePower2_eq lay hlg n.exponent he1 he2 (clz64 n.mantissa) (by omega)
-    unfold MarkerOk at hmk
     simp only [hshl] at h
     generalize hP : calculatePower2 F base n.exponent (clz64 n.mantissa) = power2 at *
     generalize hcz : clz64 n.mantissa = c at *
@@ -329,6 +362,16 @@ theorem binary_exact {F p eb} (lay : Layout F p eb) {base : Nat}
       rw [roundNE_norm_zero lay lg n.mantissa c n.exponent hm2 hc power2 hpw hz, ext_zero lay]
     · rw [if_neg hz] at h
       have hp2 : -power2 + 1 ≤ 64 := by omega
+      by_cases hinf : power2 ≥ F.C.infinitePower
+      · rw [if_pos hinf] at h
+        injection h with h; subst h
+        rw [ext_infinite lay, roundNE_norm_inf lay lg n.mantissa c n.exponent hm1 hm2 hc power2 hpw hinf]
+      rw [if_neg hinf] at h
+      have hmk : power2 + invalidFp < 0 := by
+        have h15 : 2 ^ eb ≤ 2 ^ 15 := Nat.pow_le_pow_right (by decide) lay.heb15
+        have : invalidFp = -32768 := rfl
+        rw [lay.infp] at hinf
+        omega
       rw [calculateShift_eq lay power2] at h
       obtain ⟨_, _, hs0, hs64, _⟩ := quot_bounds lay.hp (by have := lay.hp64; have := lay.heb; omega)
         hm1 hm2 power2 hp2
@@ -365,6 +408,10 @@ theorem binary_valid {F p eb} (lay : Layout F p eb) {base : Nat}
     by_cases hz : -power2 + 1 > 64
     · rw [if_pos hz]; exact ⟨_, rfl, Int.le_refl _⟩
     · rw [if_neg hz]
+      by_cases hinf : power2 ≥ F.C.infinitePower
+      · rw [if_pos hinf]
+        exact ⟨_, rfl, by show 0 ≤ F.C.infinitePower; rw [lay.infp]; omega⟩
+      rw [if_neg hinf]
       have hu : binUndecided (n.mantissa * 2 ^ clz64 n.mantissa) (calculateShift F power2).toNat lossy
           n.manyDigits = false := by
         unfold binUndecided
@@ -373,17 +420,14 @@ theorem binary_valid {F p eb} (lay : Layout F p eb) {base : Nat}
       simp only [Bool.false_eq_true, if_false]
       exact ⟨_, rfl, (round_bits lay _ power2 _ hm1 hm2 (by omega)).1⟩
 
-/-- the defect the exclusion `MarkerOk` mirrors: radix 2, the 64-bit mantissa `2^63 + 2^10` (even, exactly
-half-way), `many_digits`, exponent 40000: `power2 = 41075`, the "invalid" marker `41075 − 32768 = 8307` is
-not negative, the caller takes the result for valid and assembles the bit pattern `0x8730000000000400`
-(a tiny negative number) where the correct answer is `+∞`. -/
-theorem binary_marker_overflow_witness :
-    binary FTy.f64 2 ⟨2 ^ 63 + 2 ^ 10, 40000, false, true⟩ false = .ok ⟨2 ^ 63 + 2 ^ 10, 8307⟩ ∧
-    extendedToFloat FTy.f64 ⟨2 ^ 63 + 2 ^ 10, 8307⟩ = 0x8730000000000400 ∧
-    roundNE f64 ((2 ^ 63 + 2 ^ 10) <<< 40000) 1 = 0x7ff0000000000000 ∧
-    ¬ MarkerOk FTy.f64 2 ⟨2 ^ 63 + 2 ^ 10, 40000, false, true⟩ := by
-  refine ⟨by decide +kernel, by decide +kernel, by decide +kernel, ?_⟩
-  unfold MarkerOk
-  decide +kernel
+/-- regression example for the defect fixed by /repo commit 6cdda4d: radix 2, the 64-bit mantissa `2^63 + 2^10`
+(even, exactly half-way), `many_digits`, exponent 40000, i.e. `power2 = 41075`. Before the fix the "invalid"
+marker `41075 − 32768 = 8307` was returned, taken for a valid float by the caller and assembled into
+`0x8730000000000400`; now the answer is `+∞`, which is `roundNE` of the exact value (`<<< 40000` = `· 2^40000`). -/
+theorem binary_marker_overflow_regression :
+    binary FTy.f64 2 ⟨2 ^ 63 + 2 ^ 10, 40000, false, true⟩ false = .ok ⟨0, 2047⟩ ∧
+    extendedToFloat FTy.f64 ⟨0, 2047⟩ = 0x7ff0000000000000 ∧
+    roundNE f64 ((2 ^ 63 + 2 ^ 10) <<< 40000) 1 = 0x7ff0000000000000 := by
+  refine ⟨by decide +kernel, by decide +kernel, by decide +kernel⟩
 
 end LexVerif.Proof.BinaryCorrect
